@@ -50,26 +50,42 @@ def project_isd(isd):
     da = region.get_style(S.DisplayAlign)
     reg = {"id": region.get_id() or "", "pv": _frac(pos.v_offset.value) if pos is not None else [0, 1],
            "eh": _frac(ext.height.value) if ext is not None else [0, 1], "da": da.value if da is not None else "before",
-           "paras": []}
+           "paras": [], "ndiv": sum(len(b) for b in region), "nesteddiv": 0, "ruby": 0}
 
-    def walk_inline(el, items, ann, bg):
+    def flags_of(el):
+      fw = el.get_style(S.FontWeight)
+      fs = el.get_style(S.FontStyle)
+      td = el.get_style(S.TextDecoration)
+      col = el.get_style(S.Color)
+      out_ = set()
+      if fw is sp.FontWeightType.bold:
+        out_.add("b")
+      if fs is sp.FontStyleType.italic:
+        out_.add("i")
+      if td is not None and not isinstance(td, sp.SpecialValues) and td.underline:
+        out_.add("u")
+      if col is not None and _hex(col) != "#ffffffff":
+        out_.add("c")
+      return out_
+
+    def walk_inline(el, items, ann, bg, above):
+      own = flags_of(el) if not isinstance(el, m.P) else set()
       for ch in el:
         if isinstance(ch, m.Br):
-          items.append({"k": "br", "cps": [], "b": 0, "i": 0, "ob": 0, "u": 0, "col": "", "bg": "", "ann": ann})
+          items.append({"k": "br", "cps": [], "b": 0, "i": 0, "ob": 0, "u": 0, "col": "", "bg": "", "ann": ann, "rst": ""})
         elif isinstance(ch, m.Text):
-          par = ch.parent()
-          fw = par.get_style(S.FontWeight)
-          fs = par.get_style(S.FontStyle)
-          td = par.get_style(S.TextDecoration)
+          fs = el.get_style(S.FontStyle)
           items.append({"k": "t", "cps": [ord(c) for c in ch.get_text()],
-                        "b": 1 if fw is sp.FontWeightType.bold else 0,
-                        "i": 1 if fs is sp.FontStyleType.italic else 0,
-                        "ob": 1 if fs is sp.FontStyleType.oblique else 0,
-                        "u": 1 if (td is not None and not isinstance(td, sp.SpecialValues) and td.underline) else 0,
-                        "col": _hex(par.get_style(S.Color)), "bg": bg_of(par, bg), "ann": ann})
+                        "b": 1 if "b" in own else 0, "i": 1 if "i" in own else 0,
+                        "ob": 1 if fs is sp.FontStyleType.oblique else 0, "u": 1 if "u" in own else 0,
+                        "col": _hex(el.get_style(S.Color)), "bg": bg_of(el, bg), "ann": ann,
+                        # feature only: attributes switched on by an enclosing span and off again for this run
+                        "rst": "".join(sorted(above - own))})
         else:
           a2 = 1 if isinstance(ch, (m.Rt, m.Rtc, m.Rp)) else ann
-          walk_inline(ch, items, a2, bg_of(ch, bg))
+          if isinstance(ch, m.Ruby):
+            reg["ruby"] = 1
+          walk_inline(ch, items, a2, bg_of(ch, bg), above | own)
 
     def bg_of(el, inherited):
       c = el.get_style(S.BackgroundColor)
@@ -83,10 +99,12 @@ def project_isd(isd):
           ta = ch.get_style(S.TextAlign)
           di = ch.get_style(S.Direction)
           items = []
-          walk_inline(ch, items, 0, TRANSPARENT)
+          walk_inline(ch, items, 0, TRANSPARENT, set())
           reg["paras"].append({"ta": ta.value if ta is not None else "start", "dir": di.value if di is not None else "ltr",
                                "items": items})
         else:
+          if isinstance(ch, m.Div) and isinstance(el, m.Div):
+            reg["nesteddiv"] = 1
           walk_block(ch)
     walk_block(region)
     out.append(reg)
